@@ -327,8 +327,8 @@ META = {
                   "lowest/highest_position, rank and their laws (NaN absorbing, frequencies sum to the layer count, first "
                   "extremum, sorted order, layer-order irrelevance) over every tuple of {0,1,2,NaN}^L, L=2..4(5), and model-"
                   "checks the iteration mechanism (one step per np.nditer iteration) over every assignment of 8 memory "
-                  "layouts to 2-4 layers: per-cell for order 'C' and for C-like layouts, violated for Fortran/reversed "
-                  "layouts under the code's order 'K' (exact frontier proven).  Rasters holding every tuple x every ref "
+                  "layouts to 2-4 layers: per-cell under the code's order 'C'; np.nditer's default order 'K' (negative "
+                  "twin, the code before fix ffb8ff0) is rejected for Fortran/reversed layouts, exact frontier proven.  Rasters holding every tuple x every ref "
                   "(completeness asserted by TLC) are run through all 14 operators in every layout / data_vars order and "
                   "each output cell is decided by Local_Judge.tla; np.nditer's real order is checked against the model.",
     "level_note": "Trusted: TLC; the float bridge (rationals with denominators L, 2, L^2, tolerance 1e-9); integer-code "
